@@ -22,7 +22,8 @@ TRUSTED = ['pbt/cellsim.py', 'pbt/mastersim.py', 'pbt/fakezk.py', 'pbt/oracles.p
 BUDGET = {'quick': 6000, 'thorough': 160000}
 
 PROFILE = {
-    'weights': {'app': 16, 'prio': 4, 'down': 2, 'rm': 3},
+    'weights': {'app': 14, 'clone': 6, 'prio': 4, 'down': 2, 'rm': 3, 'adv': 4},
+    'force': ['clone', 'adv'],
     'demand_hi': 10,
     'pre': (4, 16),
 }
